@@ -32,7 +32,13 @@ const IDENT = /^[A-Za-z_$][A-Za-z0-9_$]*$/;
 export const propName = (n) => (IDENT.test(n) ? n : JSON.stringify(n));
 
 export function render(t, st = {}) {
-  const R = (x) => render(x, st);
+  const s = render0(t, st);
+  if (st.parens && !["prim", "typed", "param", "typeof", "raw"].includes(t.k) && !st.noParensHere) return `(${s})`;
+  return s;
+}
+function render0(t, st) {
+  const R = (x) => render(x, { ...st, noParensHere: false });
+  const Rplain = (x) => render(x, { ...st, noParensHere: true });
   switch (t.k) {
     case "prim":
       return t.name;
@@ -70,8 +76,9 @@ export function render(t, st = {}) {
       return `[${items.join(", ")}]`;
     }
     case "object": {
-      const ms = t.props.map((p) => `${st.readonly ? "readonly " : ""}${propName(p.name)}${p.opt ? "?" : ""}: ${R(p.t)}`);
-      for (const ix of t.index || []) ms.push(`[key: ${R(ix.key)}]: ${R(ix.val)}`);
+      const deco = (name) => (st.jsdoc ? `/** doc of ${name.replace(/[^a-zA-Z0-9 ]/g, "_")} */ ` : "") + (st.comments ? `/* c */ ` : "");
+      const ms = t.props.map((p) => `${deco(p.name)}${st.readonly ? "readonly " : ""}${propName(p.name)}${p.opt ? "?" : ""}: ${R(p.t)}`);
+      for (const ix of t.index || []) ms.push(`[key: ${Rplain(ix.key)}]: ${R(ix.val)}`);
       return ms.length === 0 ? "{}" : `{ ${ms.join("; ")} }`;
     }
     case "record":
@@ -91,7 +98,7 @@ export function render(t, st = {}) {
     case "enumMember":
       return `${t.enum}.${t.member}`;
     case "keyof":
-      return `keyof ${R(t.t)}`;
+      return `keyof ${t.t.k === "typeof" ? Rplain(t.t) : R(t.t)}`;
     case "index":
       return `(${R(t.t)})[${R(t.key)}]`;
     case "mapped":
@@ -109,14 +116,18 @@ export function render(t, st = {}) {
 }
 
 export function renderDecl(d, st = {}) {
+  const pre = (st.jsdoc ? `/** doc of ${d.name} */\n` : "") + (st.comments ? `// a comment\n/* another */ ` : "");
+  return pre + renderDecl0(d, st);
+}
+function renderDecl0(d, st) {
   const ex = st.noExport ? "" : "export ";
   const params = d.params && d.params.length ? `<${d.params.join(", ")}>` : "";
   switch (d.kind) {
     case "alias":
       return `${ex}type ${d.name}${params} = ${render(d.body, st)};`;
     case "interface": {
-      const ext = d.extends && d.extends.length ? ` extends ${d.extends.map((e) => render(e, st)).join(", ")}` : "";
-      const body = render(d.body, st);
+      const ext = d.extends && d.extends.length ? ` extends ${d.extends.map((e) => render(e, { ...st, noParensHere: true })).join(", ")}` : "";
+      const body = render(d.body, { ...st, noParensHere: true });
       return `${ex}interface ${d.name}${params}${ext} ${body === "{}" ? "{}" : body}`;
     }
     case "enum":
